@@ -57,7 +57,9 @@ WANTED = [("sbdfstring.c", "sbdf_convert_utf8_to_iso88591"), ("sbdfstring.c", "s
           ("object.c", "sbdf_skip_objects"), ("object.c", "sbdf_obj_skip_arr"), ("object.c", "sbdf_obj_skip"),
           ("valuearray.c", "sbdf_read_valuearray_int"), ("valuearray.c", "sbdf_va_skip"), ("columnslice.c", "sbdf_cs_skip"),
           ("object.c", "sbdf_read_objects"), ("object.c", "sbdf_obj_read_arr"), ("object.c", "sbdf_obj_read"),
-          ("valuearray.c", "sbdf_va_read"), ("tableslice.c", "sbdf_ts_write_end")]
+          ("valuearray.c", "sbdf_va_read"), ("tableslice.c", "sbdf_ts_write_end"),
+          # goto end (the common clean-up) as a loop that runs once
+          ("columnslice.c", "sbdf_cs_read")]
 PARTIAL = {"sbdf_read_valuearray_int"}          # untranslatable statements of these become SFault instead of failing the function
 IN_PARTIAL = [False]
 GLOBAL_VT = {}          # file-level sbdf_valuetype variables that are initialised with a literal and never written: name -> id
@@ -112,6 +114,19 @@ def call_stmt(ret, n, scope, value_args_only=False):
                 fieldreads |= fp.r
                 cells.append(tmp); args.append('(AAddr "%s")' % tmp); continue
             args.append("(AVal (EFieldAddr %s (EConst %d)))" % (p_, idx)); continue
+        if (u.get("kind") == "UnaryOperator" and u.get("opcode") == "&" and unparen(u["inner"][0]).get("kind") == "ArraySubscriptExpr"
+                and is_pp(qt(unparen(unparen(u["inner"][0])["inner"][0]))) and is_pp(qt(unparen(a))) and norm_t(qt(unparen(a))) != "void**" and not value_args_only):
+            # g(..., &p->arr[i]) with an out-cell parameter: the element is handed over by copy-in / copy-out,
+            #   $a = p->arr[i];  g(..., &$a);  p->arr[i] = $a;      (the call must touch neither p->arr nor i)
+            sub = unparen(u["inner"][0])
+            p_, fp = expr(sub["inner"][0], scope); i_, fi = expr(sub["inner"][1], scope)
+            if fp.w or fp.io or fi.w or fi.io: raise Untranslatable("address of an element reached through side effects")
+            tmp = "$a%d" % (len([x for x in EXTRA_LOCALS if x.startswith("$a")]) + 1)
+            EXTRA_LOCALS.add(tmp)
+            pre.append('(SExpr (EAssign "%s" (ECellLoad %s %s true)))' % (tmp, p_, i_))
+            post.append('(SExpr (ECellStore %s %s (EVar "%s")))' % (p_, i_, tmp))
+            fieldreads |= fp.r | fi.r
+            cells.append(tmp); args.append('(AAddr "%s")' % tmp); continue
         if u.get("kind") == "UnaryOperator" and u.get("opcode") == "&":
             t = unparen(u["inner"][0])
             if t.get("kind") == "MemberExpr" and t.get("name") == "id" and t.get("isArrow"):
@@ -709,8 +724,51 @@ def expr(n, scope):
 
 
 def has_continue_or_break(n):
-    if n.get("kind") in ("ContinueStmt", "GotoStmt", "SwitchStmt", "DoStmt"): return True
+    if n.get("kind") in ("ContinueStmt", "SwitchStmt", "DoStmt"): return True
+    if n.get("kind") == "GotoStmt" and not GOTO["on"]: return True
     return any(has_continue_or_break(c) for c in n.get("inner", []) if isinstance(c, dict))
+
+
+# goto: only forward jumps to ONE label that is a statement of the function's outermost block ("goto end;" to the common
+# clean-up).  The statements in front of the label become the body of a loop that runs once,
+#     while (1) { <statements> ; break; }   <the labelled statement and what follows>
+# and "goto end" becomes "break" - directly when it is not inside a C loop, and as "$goto = 1; break" inside one, with
+# "if ($goto) break;" placed after that loop (so the jump leaves every enclosing loop in turn).
+GOTO = {"on": False, "depth": 0, "label": None}
+
+
+def has_goto(n):
+    if n.get("kind") == "GotoStmt": return True
+    return any(has_goto(c) for c in n.get("inner", []) if isinstance(c, dict))
+
+
+def function_body(body, scope, declared):
+    GOTO.update(on=False, depth=0, label=None)
+    if not has_goto(body): return stmt(body, scope, declared)
+    kids = body.get("inner", [])
+    labs = [i for i, c in enumerate(kids) if c.get("kind") == "LabelStmt"]
+    def count_labels(n): return (1 if n.get("kind") == "LabelStmt" else 0) + sum(count_labels(c) for c in n.get("inner", []) if isinstance(c, dict))
+    if len(labs) != 1 or count_labels(body) != 1: raise Untranslatable("goto other than to one label in the outermost block")
+    li = labs[0]
+    if any(has_goto(c) for c in kids[li:]): raise Untranslatable("a backward goto")
+    def targets(n):
+        out = [n.get("targetLabelDeclId")] if n.get("kind") == "GotoStmt" else []
+        for c in n.get("inner", []):
+            if isinstance(c, dict): out += targets(c)
+        return out
+    if any(t != kids[li].get("declId") for t in targets(body)): raise Untranslatable("goto to an unknown label")
+    GOTO.update(on=True, depth=0, label=kids[li].get("declId"))
+    EXTRA_LOCALS.add("$goto")
+    pre = [stmt(c, scope, declared) for c in kids[:li]]
+    GOTO["on"] = False
+    post = [stmt(kids[li]["inner"][0], scope, declared)] + [stmt(c, scope, declared) for c in kids[li + 1:]]
+    return seq(['(SExpr (EAssign "$goto" (EConst 0)))', "(SWhile (EConst 1) %s)" % seq(pre + ["SBreak"])] + post)
+
+
+def after_loop(loop, body):
+    """behind a C loop whose body holds a goto: leave the next enclosing loop too"""
+    if GOTO["on"] and has_goto(body): return '(SSeq %s (SIf (EVar "$goto") SBreak SSkip))' % loop
+    return loop
 
 
 def seq(parts):
@@ -826,16 +884,21 @@ def stmt1(n, scope, declared):
         del PENDING[:]
         c, _ = expr(n["inner"][0], scope)
         if PENDING: raise Untranslatable("a call inside a loop condition")
-        return "(SWhile %s %s)" % (c, stmt(n["inner"][1], scope, declared))
+        GOTO["depth"] += 1
+        try: wb = stmt(n["inner"][1], scope, declared)
+        finally: GOTO["depth"] -= 1
+        return after_loop("(SWhile %s %s)" % (c, wb), n["inner"][1])
     if k == "ForStmt":
         init, _cv, cnd, inc, body = n["inner"]
         if has_continue_or_break(body): raise Untranslatable("break/continue in a loop")
         parts = []
         if init and init.get("kind"): parts.append(stmt(init, scope, declared) if init["kind"] in ("DeclStmt",) else "(SExpr %s)" % expr(init, scope)[0])
         c = expr(cnd, scope)[0] if cnd and cnd.get("kind") else "(EConst 1)"
-        b = stmt(body, scope, declared)
+        GOTO["depth"] += 1
+        try: b = stmt(body, scope, declared)
+        finally: GOTO["depth"] -= 1
         if inc and inc.get("kind"): b = "(SSeq %s (SExpr %s))" % (b, expr(inc, scope)[0])
-        parts.append("(SWhile %s %s)" % (c, b))
+        parts.append(after_loop("(SWhile %s %s)" % (c, b), body))
         return seq(parts)
     if k == "SwitchStmt":
         cond, body = n["inner"][0], n["inner"][1]
@@ -880,7 +943,11 @@ def stmt1(n, scope, declared):
             out = "(SIf %s %s %s)" % (t, bodyt, out)
         return out
     if k == "BreakStmt":
+        if GOTO["on"] and GOTO["depth"] == 0: raise Untranslatable("break outside a loop next to goto")
         return "SBreak"
+    if k == "GotoStmt":
+        if not GOTO["on"]: raise Untranslatable("goto")
+        return "SBreak" if GOTO["depth"] == 0 else '(SSeq (SExpr (EAssign "$goto" (EConst 1))) SBreak)'
     if k == "ReturnStmt" and n.get("inner") and callee_of(strip_casts(n["inner"][0])) in CALLABLE:
         EXTRA_LOCALS.add("$ret")
         return '(SSeq %s (SReturn (EVar "$ret")))' % call_stmt("$ret", strip_casts(n["inner"][0]), scope)
@@ -901,6 +968,14 @@ def stmt1(n, scope, declared):
                 and a2.get("kind") == "UnaryExprOrTypeTraitExpr" and a2.get("argType", {}).get("qualType") == "sbdf_valuetype"):
             nm = a0["referencedDecl"]["name"]; OUTPARAMS.add("*" + nm)
             return '(SExpr (EAssign "*%s" (EConst 0)))' % nm
+        if is_pp(qt(a0)) and a1.get("kind") == "IntegerLiteral" and int(a1["value"]) == 0:
+            # memset(p->arr, 0, n) on an array of pointers: n / 8 cells become null
+            mc = member_cell(a0, scope)
+            if mc is None: raise Untranslatable("memset of cells through something that is not a field")
+            f0 = mc[1]; e0 = "(ECellLoad %s (EConst %d) true)" % (mc[0], mc[2])
+            e2, f2 = expr(n["inner"][3], scope)
+            if f0.w or f2.w or f0.io or f2.io or PENDING: raise Untranslatable("memset with side effects in its arguments")
+            return "(SExpr (EMemsetCells %s %s))" % (e0, e2)
         raise Untranslatable("memset other than clearing a value type")
     e, _ = expr(n, scope)
     return "(SExpr %s)" % e
@@ -938,7 +1013,7 @@ def main():
             IN_PARTIAL[0] = fn in PARTIAL
             GLOBAL_VT.clear(); GLOBAL_VT.update(global_vts(cache[(path, cfg)]))
             CELLS_MODE[0] = any(c.get("kind") == "ParmVarDecl" and norm_t(qt(c)) == "void**" for c in decl["inner"])
-            b = stmt(body, scope, declared)
+            b = function_body(body, scope, declared)
             if "EDeref" in b and ("EReadByte" in b): raise Untranslatable("the input is used both as memory and as a stream")
             locs = [x for x in sorted(declared) if x not in params] + sorted(EXTRA_LOCALS) + sorted(OUTPARAMS)
             results.append([fn, pname, "Definition %s : func :=\n  {| fparams := [%s];\n     flocals := [%s];\n     fbody := %s |}."
